@@ -107,7 +107,7 @@ Register(p, l) ==
        IN /\ kids' = w[1]
           /\ nlvl' = [w[2] EXCEPT ![p] = l]
     /\ nops' = nops + 1
-    /\ hist' = Append(hist, [op |-> "reg", path |-> [i \in 1..Len(p) |-> SegName[p[i]]], lvl |-> l])
+    /\ hist' = Append(hist, [op |-> "reg", path |-> p, lvl |-> l])
     /\ UNCHANGED dflt
 
 SetDefault(l) ==
@@ -150,8 +150,11 @@ RegisterLocal ==
 (* spec -> code: one REPLAY line per transition: the operations so far and the
    minimum level the statement predicts for every module afterwards. *)
 ModName(m) == [i \in 1..Len(m) |-> SegName[m[i]]]
+\* the history keeps segment numbers: TLC's on-disk state queue does not preserve non-ASCII
+\* strings inside state variables, so the texts are only looked up when the line is printed
+HistNamed(h) == [k \in 1..Len(h) |-> [op |-> h[k].op, path |-> ModName(h[k].path), lvl |-> h[k].lvl]]
 
 EmitReplay ==
-    Emit => PrintT(<<"REPLAY", ToJson([ops |-> hist',
+    Emit => PrintT(<<"REPLAY", ToJson([ops |-> HistNamed(hist'),
                  expect |-> {[mdl |-> ModName(m), min |-> MinFor(m)'] : m \in Modules}])>>)
 =============================================================================
